@@ -138,7 +138,9 @@ K_RESENT = 'C19/result/resent-event-stale-result'
 SHARED = [(Protocol, '_Protocol__events'), (Server, '_Server__protocols'), (Node, '_Node__peers')]
 ADDR = ('10.0.0.1', 9000)
 NAMES = ['alpha', 'beta', 'gamma', 'delta']
-ATOMS = [0, 1, -1, 2 ** 40, 1.5, True, False, None, '', 'a', 'é', '€uro', '\U0001f600', 'x~y', 'q"uo\\te', 'line\nbreak', '~~', [], {}]
+ATOMS = [0, 1, -1, 2 ** 40, 1.5, True, False, None, '', 'a', 'é', '€uro', '\U0001f600', 'x~y', 'q"uo\\te', 'line\nbreak', '~~', [], {},
+         # text ABOUT the wire format: the six characters backslash-u-0-0-7-e (what a tilde looks like inside a packet), backslashes next to tildes
+         '\\u007e', 'C:\\users\\u007e\\file', '\\', '\\~']
 KW_KEYS = ['k', 'n', 'data', 'id', 'name', 'meta', 'ключ', '_name', 'cls']
 
 
